@@ -72,6 +72,8 @@ DIR_EXTRAS = [{}, {}, {}, {"nfiles": 2}, {"size": 7, "nfiles": 1}, {"isexec": Tr
 
 _names = st.sampled_from(NAMES)
 _hashes = st.sampled_from(HASHES)
+_hashes_ren = st.sampled_from([["md5", _V[0]], ["md5", _V[1]], ["md5", _V[0]], None, ["md5", _V[2]],
+                               ["md5", None], ["sha256", _V[0]]])
 _metas = st.sampled_from(FILE_METAS)
 _extras = st.sampled_from(DIR_EXTRAS)
 # strategies are built once (building one per draw dominates the cost of a case otherwise)
@@ -95,11 +97,11 @@ def _pick(draw, seq):
     return seq[draw(_idx) % len(seq)]
 
 
-def _file(draw):
-    return {"t": "f", "m": draw(_metas), "h": draw(_hashes)}
+def _file(draw, hs):
+    return {"t": "f", "m": draw(_metas), "h": draw(hs)}
 
 
-def _dir(draw, depth, max_children=4):
+def _dir(draw, depth, hs):
     explicit = draw(_bool)
     node = {
         "t": "d",
@@ -113,9 +115,9 @@ def _dir(draw, depth, max_children=4):
         if name in node["c"]:
             continue
         if depth < 3 and draw(_isdir_sub if depth else _isdir_root):
-            node["c"][name] = _dir(draw, depth + 1, 3)
+            node["c"][name] = _dir(draw, depth + 1, hs)
         else:
-            node["c"][name] = _file(draw)
+            node["c"][name] = _file(draw, hs)
     return node
 
 
@@ -149,17 +151,21 @@ def _get(root, path):
 
 
 MUTATIONS = ["rehash", "move", "remeta", "add", "drop", "f2d", "d2f", "explicit", "hashed", "rehash",
-             "move", "remeta", "add", "dirmeta", "dup"]
+             "move", "remeta", "add", "dirmeta", "dup", "mvdir"]
 
 
-def _mutate(draw, root):  # noqa: C901, PLR0912
-    op = _pick(draw, MUTATIONS)
+MUTATIONS_REN = ["move", "mvdir", "move", "rehash", "drop", "add", "mvdir", "move", "f2d", "dup", "d2f",
+                 "explicit", "hashed", "remeta"]
+
+
+def _mutate(draw, root, muts, hs):  # noqa: C901, PLR0912
+    op = _pick(draw, muts)
     files = _paths(root, "f")
     dirs = _paths(root, "d")
     if op in ("rehash", "remeta", "move", "f2d", "dup") and not files:
         op = "add"
     if op == "rehash":
-        _get(root, _pick(draw, files))["h"] = draw(_hashes)
+        _get(root, _pick(draw, files))["h"] = draw(hs)
     elif op == "remeta":
         _get(root, _pick(draw, files))["m"] = draw(_metas)
     elif op == "drop":
@@ -169,7 +175,7 @@ def _mutate(draw, root):  # noqa: C901, PLR0912
             del _get(root, p[:-1])["c"][p[-1]]
     elif op == "add":
         d = _get(root, _pick(draw, dirs))
-        d["c"][draw(_names)] = _file(draw)  # may replace a file or a whole directory (kind change)
+        d["c"][draw(_names)] = _file(draw, hs)  # may replace a file or a whole directory (kind change)
     elif op in ("move", "dup"):
         p = _pick(draw, files)
         node = _get(root, p)
@@ -178,10 +184,18 @@ def _mutate(draw, root):  # noqa: C901, PLR0912
         dirs = _paths(root, "d")
         d = _get(root, _pick(draw, dirs))
         d["c"][draw(_names)] = _copy(node)
+    elif op == "mvdir":
+        cands = [p for p in dirs if p]
+        if cands:
+            p = _pick(draw, cands)
+            node = _get(root, p)
+            del _get(root, p[:-1])["c"][p[-1]]
+            d = _get(root, _pick(draw, _paths(root, "d")))
+            d["c"][draw(_names)] = node  # a directory rename: every file below it moves
     elif op == "f2d":
         p = _pick(draw, files)
         old = _get(root, p)
-        new = _dir(draw, min(len(p), 3), 2)
+        new = _dir(draw, min(len(p), 3), hs)
         if draw(_bool):
             new["c"][draw(_names)] = _copy(old)  # the file moves inside the new directory
         _get(root, p[:-1])["c"][p[-1]] = new
@@ -189,7 +203,7 @@ def _mutate(draw, root):  # noqa: C901, PLR0912
         cands = [p for p in dirs if p]
         if cands:
             p = _pick(draw, cands)
-            _get(root, p[:-1])["c"][p[-1]] = _file(draw)
+            _get(root, p[:-1])["c"][p[-1]] = _file(draw, hs)
     elif op == "explicit":
         d = _get(root, _pick(draw, dirs))
         d["x"] = not d["x"]
@@ -228,13 +242,17 @@ def _flatten(root):
 
 @st.composite
 def cases(draw, mode=None, renames=None):
-    base = _dir(draw, 0)
+    # the rename arm draws hashes from three values and moves files more often, so that several
+    # deleted and added keys carry the same hash
+    hs = _hashes_ren if renames else _hashes
+    muts = MUTATIONS_REN if renames else MUTATIONS
+    base = _dir(draw, 0, hs)
     if draw(_i20) != 19:
         base["x"], base["hd"], base["e"] = False, False, {}  # explicit root entry: rare
     other = _copy(base)
     ops = []
     for _ in range(draw(_nmut)):
-        ops.append(_mutate(draw, other))
+        ops.append(_mutate(draw, other, muts, hs))
     a, b = _flatten(base), _flatten(other)
     if draw(_bool):
         a, b = b, a
@@ -754,7 +772,7 @@ ARMS = [
 
 
 def run(ctx):
-    total = ctx.n(quick=2600, thorough=100000)
+    total = ctx.n(quick=2600, thorough=80000)
     per = max(1, total // len(ARMS))
     for mode, renames in ARMS:
         if not ctx.run_given(cases(mode=mode, renames=renames), run_case, per):
